@@ -20,3 +20,111 @@ pub(crate) fn get_slot(l: &Locals<'_>, class: Class, idx: usize) -> (bool, usize
     (v.present(), v.row().0, v.free())
 }
 pub(crate) const LOCAL_SIZE: usize = core::mem::size_of::<Local>();
+
+
+#[repr(align(64))]
+struct LBuf([u8; 3 * 64]);
+
+/// Three classes with one slot each, arbitrary slot contents.
+fn any_locals(buf: &mut LBuf, policy: PolicyFn) -> (Locals<'_>, Classing) {
+    let classing = Classing::new(&[(Class(0), 1), (Class(1), 1), (Class(2), 1)], Class(1), policy);
+    let l = Locals::new(&mut buf.0, &classing).unwrap();
+    for c in 0..3u8 {
+        let row: usize = kani::any();
+        let free: usize = kani::any();
+        kani::assume(row < (1 << 20) && free <= TREE_FRAMES);
+        set_slot(&l, Class(c), 0, kani::any(), row, free);
+    }
+    (l, classing)
+}
+
+/// `Locals::steal_any`: the class it reports is one the policy rates match or steal, and exactly
+/// that slot was charged.
+fn steal_any_body(class: u8, policy: PolicyFn) {
+    let mut buf = LBuf([0; 3 * 64]);
+    let (l, _c) = any_locals(&mut buf, policy);
+    let pre: [(bool, usize, usize); 3] = core::array::from_fn(|c| get_slot(&l, Class(c as u8), 0));
+    // (concrete request class and policy: symbolic ones make every slot address symbolic)
+    let order: usize = kani::any();
+    kani::assume(order <= crate::TREE_ORDER);
+    let frames = 1usize << order;
+    let tree: Option<TreeId> = if kani::any() { Some(TreeId(kani::any())) } else { None };
+    install(Mode::Seq);
+    let r = l.steal_any(Class(class), if kani::any() { Some(0) } else { None }, tree, frames, policy);
+    set_mode(Mode::Off);
+    vcover!("C13", class == 0 || r.as_ref().is_some_and(|r| r.class.0 != class), "stolen from another class's slot");
+    for c in 0..3usize {
+        let post = get_slot(&l, Class(c as u8), 0);
+        match &r {
+            Some(res) if res.class.0 as usize == c => {
+                vassert!("C13", matches!(policy(Class(class), res.class, frames), Policy::Steal | Policy::Match(_)), "a slot is only stolen from if the policy rates its class as match or stealable for the request");
+                vassert!("C04", pre[c].0 && post.0 && pre[c].2 >= frames && post.2 == pre[c].2 - frames, "exactly the requested frames are taken from that slot");
+                vassert!("C15", tree.is_none_or(|t| pre[c].1 * 64 / TREE_FRAMES == t.0), "a targeted steal only uses a reservation of the target's tree");
+            }
+            _ => vassert!("C04", post == pre[c], "other slots are untouched"),
+        }
+    }
+}
+
+/// `Locals::demote_any`: only slots whose class the policy rates as demote are taken over.
+fn demote_any_body(class: u8, policy: PolicyFn) {
+    let mut buf = LBuf([0; 3 * 64]);
+    let (l, _c) = any_locals(&mut buf, policy);
+    let pre: [(bool, usize, usize); 3] = core::array::from_fn(|c| get_slot(&l, Class(c as u8), 0));
+    let order: usize = kani::any();
+    kani::assume(order <= crate::TREE_ORDER);
+    let frames = 1usize << order;
+    let local: Option<usize> = if kani::any() { Some(0) } else { None };
+    install(Mode::Seq);
+    let r = l.demote_any(Class(class), local, None, frames, policy);
+    set_mode(Mode::Off);
+    vcover!("C13", class == 2 || r.is_some(), "a reservation is demoted");
+    if let Some((row, old)) = r {
+        // find the source slot: the one that lost its reservation
+        let mut src = usize::MAX;
+        for c in 0..3usize {
+            if c != class as usize && pre[c].0 && !get_slot(&l, Class(c as u8), 0).0 {
+                src = c;
+            }
+        }
+        vassert!("C13", src != usize::MAX, "a demotion empties exactly one other class's slot");
+        if src != usize::MAX {
+            vassert!("C13", policy(Class(class), Class(src as u8), frames) == Policy::Demote, "only reservations of a class the policy rates as demotable are taken over");
+            vassert!("C04", pre[src].2 >= frames && row.0 == pre[src].1, "the taken-over reservation had enough frames and keeps its row");
+            if local.is_some() {
+                let mine = get_slot(&l, Class(class), 0);
+                vassert!("C04", mine.0 && mine.1 == pre[src].1 && mine.2 == pre[src].2 - frames, "the requester's slot now holds the reservation minus the allocated frames");
+                vassert!("C04", old.is_some() == pre[class as usize].0, "the requester's previous reservation is handed back for unreserving");
+            } else {
+                vassert!("C04", old.as_ref().is_some_and(|o| o.free == pre[src].2 - frames && o.class.0 == class), "without a slot the demoted reservation itself is handed back for unreserving");
+            }
+        }
+    }
+}
+
+// @h props=C13 tier=quick geom=4 panics=C09 mem=C18
+#[kani::proof]
+#[kani::unwind(10)]
+fn c13_locals_steal_any_c0() {
+    steal_any_body(0, zeroed_policy)
+}
+#[kani::proof]
+#[kani::unwind(10)]
+fn c13_locals_steal_any_c2() {
+    steal_any_body(2, zeroed_policy)
+}
+#[kani::proof]
+#[kani::unwind(10)]
+fn c13_locals_steal_any_c1_custom() {
+    steal_any_body(1, custom_policy)
+}
+#[kani::proof]
+#[kani::unwind(10)]
+fn c13_locals_demote_any_c0() {
+    demote_any_body(0, zeroed_policy)
+}
+#[kani::proof]
+#[kani::unwind(10)]
+fn c13_locals_demote_any_c1_custom() {
+    demote_any_body(1, custom_policy)
+}
